@@ -26,9 +26,9 @@ def check(prop, tier, seed):
         hs = []
         for i in range(rnd.randint(3, 6)):
             if rnd.random() < 0.65:
-                hs.append(dict(id=i + 1, dir="out", ty=rnd.choice(["ALL", "V", "0"]), accept=rnd.random() < 0.8, when=rnd.choice(["pre", "post"])))
+                hs.append(dict(id=i + 1, dir="out", ty=rnd.choice(["ALL", "V", "0"]), accept=rnd.random() < 0.8, when=rnd.choice(["pre", "post"]), mutate=rnd.random() < 0.3))
             else:
-                hs.append(dict(id=i + 1, dir="in", ty=rnd.choice(["ALL", "1", "D"]), accept=rnd.random() < 0.7, when="post"))
+                hs.append(dict(id=i + 1, dir="in", ty=rnd.choice(["ALL", "1", "D"]), accept=rnd.random() < 0.7, when="post", mutate=False))
         confs.append(dict(handlers=hs, saveFailAt=rnd.choice([0, 0, 1, 2, 3, 5])))
     scns = []
     for i, c in enumerate(confs):
